@@ -9,6 +9,11 @@ from vlib import is_diagnosed
 def finish(ctx, prop, R, groups, rule, assume, extra=None, nproc=10, mcstats=None):
     ver = ctx.validate("Trace_Asm", R.traces(), nproc=nproc)
     ver["rej"] += getattr(ctx, "extra_rej", [])
+    widen = getattr(ctx, "widen_tags", None)     # e.g. C11: a data/operand value rejection in an EQU program is a C11 rejection
+    if widen:
+        for r in ver["rej"]:
+            if prop not in r.get("tags", []) and set(widen) & set(r.get("tags", [])) and not r.get("dev"):
+                r["tags"] = list(r["tags"]) + [prop]
     F = Findings()
     viol, known, other = flow.classify(ctx, ver, R, F, prop)
     clean = sum(1 for c in R.cases if not is_diagnosed(R.end(c["id"])))
